@@ -265,6 +265,34 @@ func c06Body(rc *corepkg, own bool) {
 					rs := w.M.SortedRegions()
 					hb = w.M.Heartbeat(rs[s.Choose(len(rs), "hb.region")])
 				}
+				if sequential && own && s.Choose(12, "hb.mixed") == 0 {
+					// a heartbeat whose epoch is newer in one component and older in the other than what PD holds for
+					// the id (no raft history produces one; a corrupted or forged report): it is staler in one
+					// component, must be refused and must change nothing. Only sent when PD certainly holds the id.
+					if o := bc.GetRegion(hb.GetRegion().GetId()); o != nil {
+						oe := o.GetRegionEpoch()
+						ep := &metapb.RegionEpoch{Version: oe.GetVersion() + uint64(1+s.Choose(3, "hb.mixed.up")), ConfVer: oe.GetConfVer()}
+						if s.Choose(2, "hb.mixed.side") == 0 {
+							ep = &metapb.RegionEpoch{Version: oe.GetVersion(), ConfVer: oe.GetConfVer() + uint64(1+s.Choose(3, "hb.mixed.up2"))}
+						}
+						ok := false
+						if ep.Version > oe.GetVersion() && ep.ConfVer > 0 {
+							ep.ConfVer -= uint64(1 + s.Choose(int(min(ep.ConfVer, 2)), "hb.mixed.down"))
+							ok = true
+						} else if ep.ConfVer > oe.GetConfVer() && ep.Version > 0 {
+							ep.Version -= uint64(1 + s.Choose(int(min(ep.Version, 2)), "hb.mixed.down2"))
+							ok = true
+						}
+						if ok {
+							cp := *hb
+							reg := *hb.GetRegion()
+							reg.RegionEpoch = ep
+							cp.Region = &reg
+							hb = &cp
+							rc.Extra["mixed_epoch_sent"]++
+						}
+					}
+				}
 				if !sequential || !own {
 					if err := send(hb); err != nil {
 						rc.Extra["hb_rejected"]++
